@@ -89,7 +89,7 @@ def rand_hists(rng, n):
     """Random histories on one thread: fresh formatters, renders repeated, arguments added after a render, raises whose
     items include the hex-switching type."""
     pieces = [b"{}", b"{}", b"{", b"}", b"a", b"bc", b" ", b"{{}}", b"}{"]
-    argv = [b"", b"x", b"{}", b"{", b"hello", b"42", b"a{}b"]
+    argv = [b"", b"x", b"{}", b"{", b"hello", b"42", b"a{}b", b"<x>", b"<>", b"<{}>", b"<a b>"]
     out = []
     for _ in range(n):
         h = []
